@@ -1,6 +1,8 @@
 import ExponaxModel.Proofs.MetricsAlgebra
 import ExponaxModel.Proofs.MetricsGenEq
 import ExponaxModel.Proofs.MetricsGenFourierEq
+import ExponaxModel.Proofs.SmallGapsMetrics
+import ExponaxModel.Proofs.SmallGapsResample
 /-
 C16 — error metrics are consistent quadratures of the documented norms.
 `Metrics.*` mirrors `exponax/metrics/*.py` on one channel + the per-channel combination (tied by the
@@ -114,5 +116,91 @@ theorem C16_generated_fourier (D N : ℕ) (u : Array ℝ) (L p q : ℝ) (low hig
 
 theorem C16_generated_coverage : Gen.MetricsGen.generated_metrics.length = 27 := by
   rw [Gen.MetricsGen.generated_metrics_pinned]; rfl
+
+
+/-! ### Sobolev metrics = plain metric + metric of the spectral gradient (regenerated `H1_*` functions, any scalar type; the
+derivative-order-1 aggregator is the SUM over axes of the plain aggregator of the gradient components), and resolution
+independence: the p = 2 metrics of a band-limited pair are unchanged by `mapBetween` to another resolution -/
+
+open Exponax.SmallGaps in
+theorem C16_sobolev_MSE_split :
+    ∀ {K : Type} [inst : Add K] [inst_1 : Sub K] [inst_2 : Mul K] [inst_3 : Div K] [inst_4 : Neg K]
+      [inst_5 : Zero K] [inst_6 : One K] [inst_7 : NatCast K] [inst_8 : IntCast K] [inst_9 : HasRpow K] [inst_10 : HasAbs K]
+      [inst_11 : HasLtB K] [HasSqrt K] [inst_13 : HasExp K] [inst_14 : HasI K] [inst_15 : HasPi K]
+      [inst_16 : Gen.Prelude.HasCpow K] (D N : ℕ) (u : List (Array K)) (L : K) (lo hi : Option ℕ)
+      (ref : Option (List (Array K))),
+      ∃ a b,
+        Gen.MetricsGen.fourier_MSE D N u ref L lo hi none = some a ∧
+          Gen.MetricsGen.fourier_MSE D N u ref L lo hi (some (lit 1)) = some b ∧
+            Gen.MetricsGen.H1_MSE D N u ref L lo hi = some (a + b) :=
+  @Exponax.SmallGaps.H1_MSE_split
+
+open Exponax.SmallGaps in
+theorem C16_sobolev_RMSE_split :
+    ∀ {K : Type} [inst : Add K] [inst_1 : Sub K] [inst_2 : Mul K] [inst_3 : Div K] [inst_4 : Neg K]
+      [inst_5 : Zero K] [inst_6 : One K] [inst_7 : NatCast K] [inst_8 : IntCast K] [inst_9 : HasRpow K] [inst_10 : HasAbs K]
+      [inst_11 : HasLtB K] [HasSqrt K] [inst_13 : HasExp K] [inst_14 : HasI K] [inst_15 : HasPi K]
+      [inst_16 : Gen.Prelude.HasCpow K] (D N : ℕ) (u : List (Array K)) (L : K) (lo hi : Option ℕ)
+      (ref : Option (List (Array K))),
+      ∃ a b,
+        Gen.MetricsGen.fourier_RMSE D N u ref L lo hi none = some a ∧
+          Gen.MetricsGen.fourier_RMSE D N u ref L lo hi (some (lit 1)) = some b ∧
+            Gen.MetricsGen.H1_RMSE D N u ref L lo hi = some (a + b) :=
+  @Exponax.SmallGaps.H1_RMSE_split
+
+open Exponax.SmallGaps in
+theorem C16_sobolev_nRMSE_split :
+    ∀ {K : Type} [inst : Add K] [inst_1 : Sub K] [inst_2 : Mul K] [inst_3 : Div K] [inst_4 : Neg K]
+      [inst_5 : Zero K] [inst_6 : One K] [inst_7 : NatCast K] [inst_8 : IntCast K] [inst_9 : HasRpow K] [inst_10 : HasAbs K]
+      [inst_11 : HasLtB K] [HasSqrt K] [inst_13 : HasExp K] [inst_14 : HasI K] [inst_15 : HasPi K]
+      [inst_16 : Gen.Prelude.HasCpow K] (D N : ℕ) (u : List (Array K)) (L : K) (lo hi : Option ℕ) (r : List (Array K)),
+      ∃ a b,
+        Gen.MetricsGen.fourier_nRMSE D N u r L lo hi none = some a ∧
+          Gen.MetricsGen.fourier_nRMSE D N u r L lo hi (some (lit 1)) = some b ∧
+            Gen.MetricsGen.H1_nRMSE D N u r L lo hi = some (a + b) :=
+  @Exponax.SmallGaps.H1_nRMSE_split
+
+open Exponax.SmallGaps in
+theorem C16_derivative_metric_is_gradient_sum :
+    ∀ (D N : ℕ) (L s p q : ℝ) (band : Option (ℕ × ℕ)) (floor : ℝ) (mag : Array ℝ),
+      (∀ (h : ℕ), 0 ≤ mag.getD h 0) →
+        Metrics.fourierAggregator D N L s p q band (some 1) floor mag =
+          ∑ d ∈ Finset.range D, Metrics.fourierAggregator D N L s p q none none 0 (gradMag D N s band floor mag d) :=
+  @Exponax.SmallGaps.fourierAggregator_deriv_one_eq_gradient
+
+open Exponax.SmallGaps in
+theorem C16_resolution_independent :
+    ∀ (D Nold Nnew : ℕ),
+      0 < D →
+        0 < Nold →
+          0 < Nnew →
+            ∀ (ob : Bool) (L q : ℝ) (ur rr : Array ℝ),
+              ur.size = Nold ^ D →
+                rr.size = Nold ^ D →
+                  Interp.BandLimitedN D Nold (min Nold Nnew) (Metrics.toComplex ur) →
+                    Interp.BandLimitedN D Nold (min Nold Nnew) (Metrics.toComplex rr) →
+                      Metrics.spatialAggregator D Nnew L 2 q
+                          (rsub (Nnew ^ D) (reArr (Interp.mapBetween D Nold Nnew ob (Metrics.toComplex ur)))
+                            (reArr (Interp.mapBetween D Nold Nnew ob (Metrics.toComplex rr)))) =
+                        Metrics.spatialAggregator D Nold L 2 q (rsub (Nold ^ D) ur rr) :=
+  @Exponax.SmallGaps.spatialAggregator_mapBetween_pair
+
+open Exponax.SmallGaps in
+theorem C16_generated_MSE_RMSE_resolution_independent :
+    ∀ (D Nold Nnew : ℕ),
+      0 < D →
+        0 < Nold →
+          0 < Nnew →
+            ∀ (ob : Bool) (L : ℝ) (ur rr : Array ℝ),
+              ur.size = Nold ^ D →
+                rr.size = Nold ^ D →
+                  Interp.BandLimitedN D Nold (min Nold Nnew) (Metrics.toComplex ur) →
+                    Interp.BandLimitedN D Nold (min Nold Nnew) (Metrics.toComplex rr) →
+                      have vu := reArr (Interp.mapBetween D Nold Nnew ob (Metrics.toComplex ur));
+                      have vr := reArr (Interp.mapBetween D Nold Nnew ob (Metrics.toComplex rr));
+                      Gen.MetricsGen.MSE D Nnew [vu] (some [vr]) L = Gen.MetricsGen.MSE D Nold [ur] (some [rr]) L ∧
+                        Gen.MetricsGen.RMSE D Nnew [vu] (some [vr]) L = Gen.MetricsGen.RMSE D Nold [ur] (some [rr]) L :=
+  @Exponax.SmallGaps.MSE_RMSE_resolution_independent
+
 
 end Exponax
